@@ -43,9 +43,14 @@ def units(tier):
     from props.common import lemma_unit
     from spec import msm
     us.append(lemma_unit("msm.fold_lemmas", msm.fold_lemmas))
-    # socket-backed streams: SocketWrapper refines the stream contract (C11)
-    for q in ("_recv", "read", "readline", "__init__", "dechunk"):  # incl. chunked transfer encoding (C12): same stream contract
-        us += func_units(f"pyrtcm.socketwrapper.SocketWrapper.{q}", tier)
+    # socket-backed streams: SocketWrapper refines the stream contract (C11), incl. chunked transfer encoding (C12)
+    from props.common import socket_units, ground_unit
+    us += socket_units(tier)
+    # a 'valid frame' is one laid out as the standard says: a definition that needs more bits than the standard assigns over-reads
+    # such a frame and the reader drops it
+    from spec import tablecheck
+    us.append(ground_unit("tables.WF", tablecheck.wf_lemmas))
+    us.append(ground_unit("tables.no_longer_than_standard", tablecheck.no_longer_than_standard_lemmas))
     return us
 
 
